@@ -33,7 +33,8 @@ LEVEL_TEXT = ("Exploration: thousands of clouds (2-300 points; Gaussian, uniform
               "mode x both classes. Held = held on those executions."
               "Integer-typed (voxel) clouds and clouds with coincident points are included; the length oracle is an own Prim implementation cross-checked against scipy where scipy's dense reading is sound."
               " Transform objects are also re-used: after another cloud and after a call with argument forms they reject."
-              " Names given at call time; float32 clouds of 255 .. 513 points far from the origin.")
+              " Names given at call time; float32 clouds of 255 .. 513 points far from the origin."
+              " Constructions asked to use custom column names.")
 LEVEL_NOTE = ("Points in general position (no duplicates). A replay step whose best and second-best "
               "costs differ by less than 1e-9 relative (1e-5 for float32 input, whose distances the "
               "library computes in float32) makes the case inconclusive for the parent comparison "
